@@ -110,6 +110,9 @@ Definition send_packet mtu o seq tok inface mark wire : list bytes * N :=
 
 (* The send side of a link service as state: options, the cached headerOverhead, the fragment sequence counter.
    MakeNDNLPLinkService: l.options = options; l.computeHeaderOverhead().   SetOptions: the same two statements. *)
+(* NO CARRY-OVER: these three fields are the whole send-side state.  The frames of a packet depend on them and on the fields
+   of THAT packet only (token, incoming-face id, mark, bytes); nothing of an earlier packet - its token, mark, in-face - can
+   appear in a later frame.  (Checked on the real code by `vary` cases: one link service sending packets with varying field sets.) *)
 Record lsend := mkLs { ls_opts : sopts; ls_hdr : N; ls_seq : N }.
 Definition make_ls (o : sopts) : lsend := mkLs o (compute_header_overhead o) 0.
 Definition set_options (l : lsend) (o : sopts) : lsend := mkLs o (compute_header_overhead o) (ls_seq l).
